@@ -81,6 +81,7 @@ inline const char* tag_name(jsoncons::semantic_tag t)
     switch (t)
     {
         case st::none: return "";
+        case st::noesc: return "@noesc";
         case st::undefined: return "@undefined";
         case st::datetime: return "@datetime";
         case st::epoch_second: return "@epoch_second";
@@ -108,7 +109,7 @@ inline const char* tag_name(jsoncons::semantic_tag t)
 inline jsoncons::semantic_tag tag_of_name(const std::string& n)
 {
     using st = jsoncons::semantic_tag;
-    static const st all[] = {st::none, st::undefined, st::datetime, st::epoch_second, st::epoch_milli, st::epoch_nano, st::bigint, st::bigdec,
+    static const st all[] = {st::none, st::noesc, st::undefined, st::datetime, st::epoch_second, st::epoch_milli, st::epoch_nano, st::bigint, st::bigdec,
                              st::bigfloat, st::float128, st::base16, st::base64, st::base64url, st::uri, st::clamped, st::multi_dim_row_major,
                              st::multi_dim_column_major, st::ext, st::id, st::regex, st::code};
     for (st t : all) if (n == tag_name(t)) return t;
